@@ -870,6 +870,8 @@ unsigned int CppCheck::check(const FileSettings &fs)
 std::size_t CppCheck::calculateHash(const Preprocessor& preprocessor, const std::string& filePath) const
 {
     std::ostringstream toolinfo;
+    // the results name the file: cached results of another path must not be reused
+    toolinfo << filePath.size() << ':' << filePath;
     toolinfo << (mSettings.cppcheckCfgProductName.empty() ? CPPCHECK_VERSION_STRING : mSettings.cppcheckCfgProductName);
     toolinfo << (mSettings.severity.isEnabled(Severity::warning) ? 'w' : ' ');
     toolinfo << (mSettings.severity.isEnabled(Severity::style) ? 's' : ' ');
